@@ -10,18 +10,22 @@ EXTENDS FileFormat, TLC
 CONSTANTS HdrLens,     \* header lengths tried for the first record (limit = 0)
           LimitUnits,  \* allocation limits tried, in units of 32 bytes
           NameLens,    \* name lengths
+          UUnits,      \* allocation limits that are NOT multiples of 32 (a foreign writer's exact record end):
+          Resid,       \*   32 * u + r for u in UUnits, r in Resid
+          NameLensU,   \* name lengths tried with them
           Alphabet,    \* bytes for the exhaustive short names
           LongNames,   \* further byte strings
           MetaLens     \* metadata lengths
 VARIABLE v
 
-PlaceVecs == {[kind |-> "place", x |-> <<h, 0, n>>, y |-> Place(h, 0, n)] : h \in HdrLens, n \in NameLens}
-       \cup  {[kind |-> "place", x |-> <<MetaAt, Unit * u, n>>, y |-> Place(MetaAt, Unit * u, n)] : u \in LimitUnits, n \in NameLens}
+PlaceFirst == {[kind |-> "place", x |-> <<h, 0, n>>, y |-> Place(h, 0, n)] : h \in HdrLens, n \in NameLens}
+PlaceNext  == {[kind |-> "place", x |-> <<MetaAt, Unit * u, n>>, y |-> Place(MetaAt, Unit * u, n)] : u \in LimitUnits, n \in NameLens}
+PlaceOdd   == {[kind |-> "place", x |-> <<MetaAt, Unit * u + r, n>>, y |-> Place(MetaAt, Unit * u + r, n)] : u \in UUnits, r \in Resid, n \in NameLensU}
 Short     == {<<a>> : a \in Alphabet} \cup {<<a, b>> : a \in Alphabet, b \in Alphabet}
 HashVecs  == {[kind |-> "hash", x |-> s, y |-> <<Hash(s)>>] : s \in Short \cup LongNames}
 HdrVecs   == {[kind |-> "hdr", x |-> <<m>>, y |-> <<IF m <= MaxMeta THEN HeaderLen(m) ELSE -1>>] : m \in MetaLens}
 
-Init == v \in PlaceVecs \cup HashVecs \cup HdrVecs
+Init == v \in PlaceFirst \/ v \in PlaceNext \/ v \in PlaceOdd \/ v \in HashVecs \/ v \in HdrVecs     \* (a disjunction: TLC enumerates each family once)
 Next == UNCHANGED v
 
 (* published FNV-1a test vectors: "", "a", "foobar" *)
